@@ -1303,3 +1303,51 @@ package core
 //@   assume-entry wfTHs()
 //@   loop 1: invariant[C13.timer_history_first_loop_in_range] clone.offset <= i && wfTH(clone)
 //@   loop 2: invariant[C13.timer_history_second_loop_in_range] 0 <= i && wfTH(clone)
+
+// ---- round 7 --------------------------------------------------------------------------------------------------------
+// C06: a failed Clear / Delete of the state (its storage refused) is reported to the caller of the Location operation.
+//@ ghost stateErr bool gate
+//@ iface State.Clear
+//@   ghost-ensures stateErr == (old(stateErr) || result != nil)
+//@   also-modifies stateErr
+//@ iface State.Delete
+//@   ghost-ensures stateErr == (old(stateErr) || result != nil)
+//@   also-modifies stateErr
+//@ func (*Location).Clear
+//@   ensures[C06.location_clear_reports_the_state_error] stateErr ==> result != nil
+//@ func (*Location).Delete
+//@   ensures[C06.location_delete_reports_the_state_error] stateErr ==> result != nil
+
+// C18/C14/C04: decoding of transported code. Corrupt base64 is refused (never a silently truncated script), no encoding means
+// the code itself, an unknown encoding is refused.
+//@ ghost b64Err bool gate
+//@ extern (*encoding/base64.Encoding).DecodeString
+//@   ghost-ensures b64Err == (old(b64Err) || result1 != nil)
+//@   also-modifies b64Err
+//@ func DecodeString
+//@   ensures[C18+C14.decodestring_reports_corrupt_base64] b64Err ==> result1 != nil
+//@   ensures[C18+C04.decodestring_without_encoding_is_the_code] (encoding == "" || encoding == "none") ==> result1 == nil && result0 == code
+//@   ensures[C18.decodestring_refuses_unknown_encodings] encoding != "" && encoding != "none" && encoding != "base64" ==> result1 != nil
+
+// C14/C04: code given as an array of lines: every line keeps its line end (a `//` comment cannot swallow the next line).
+//@ func GetCode
+//@   ensures[C14+C04.getcode_lines_end_in_newline] is(x, []interface{}) && result1 == nil && result0 != "" ==> suffix("\n", result0)
+//@   loop 2: invariant[C14+C04.getcode_line_loop] acc == "" || suffix("\n", acc)
+
+// C04/C03: Bind substitutes every variable that has a binding, whatever the bound value (null included).
+//@ func (*Bindings).Bind
+//@   ensures[C04+C03.bind_substitutes_every_bound_variable] is(pat, string) && prefix("?", pat.(string)) && has(*bs, pat.(string)) ==> result == (*bs)[pat.(string)]
+
+// C19: the access keys and the enabled switch are compared as stored (no normalisation of the stored property value).
+//@ ghost lastPropGot interface{}
+//@ func getProp
+//@   ghost-ensures lastPropGot == result0
+//@   also-modifies lastPropGot
+//@ func GetPropString
+//@   ensures[C19.getpropstring_returns_the_stored_string] result2 == nil ==> is(lastPropGot, string) && result0 == lastPropGot.(string)
+
+// C01: index keys of tagged strings: variables and already tagged strings are kept, any other string gets the S_ tag (so a
+// boolean's B_ tag written at indexing time is the one looked up at dispatch).
+//@ func picast
+//@   ensures[C01.picast_keeps_tagged_strings] is(x, string) && (prefix("?", x.(string)) || prefix("F_", x.(string)) || prefix("B_", x.(string)) || prefix("S_", x.(string))) ==> result == x
+//@   ensures[C01.picast_tags_plain_strings] is(x, string) && !(prefix("?", x.(string)) || prefix("F_", x.(string)) || prefix("B_", x.(string)) || prefix("S_", x.(string))) ==> is(result, string) && result.(string) == "S_" + x.(string)
